@@ -27,13 +27,13 @@ Definition leaf_close (a b : leaf (T:=Q)) : bool :=
   | LScale s c, LScale s' c' => space_eqb s s' && qc c c'
   | LMul s v, LMul s' v' => space_eqb s s' && qsc v v'
   | LMat n r, LMat n' r' => Nat.eqb n n' && all2 qsc r r'
-  | LInner v, LInner v' => qsc v v'
+  | LInner w v, LInner w' v' => qsc w w' && qsc v v'
   | LZero s t, LZero s' t' => space_eqb s s' && space_eqb t t'
   | LConst s t c, LConst s' t' c' => space_eqb s s' && space_eqb t t' && qsc c c'
   | LPow s p, LPow s' p' => space_eqb s s' && Z.eqb p p'
   | LUf f n, LUf f' n' => ufn_eqb f f' && Nat.eqb n n'
-  | LNorm n, LNorm n' => Nat.eqb n n'
-  | LDist v, LDist v' => qsc v v'
+  | LNorm w, LNorm w' => qsc w w'
+  | LDist w v, LDist w' v' => qsc w w' && qsc v v'
   | LAbs k, LAbs k' => Nat.eqb k k'
   | LAbsD k x, LAbsD k' x' => Nat.eqb k k' && qsc x x'
   | LPwNorm n p w, LPwNorm n' p' w' => Nat.eqb n n' && Z.eqb p p' && qsc w w'
